@@ -15,6 +15,7 @@ Mirrors
   (children in increasing order, result indexed by vertex, `post[n] = n`)
 * `SRC/sp_preorder.c:73-209`             -> `spPreorder`
 * `SRC/relax_snode.c:43-85`              -> `relaxSnode`
+* `SRC/heap_relax_snode.c:36-135`        -> `heapRelaxSnode`
 `mmd.c`, `colamd.c` are oracles (level O): their output is an *input* of `spPreorder`, checked on
 every run by `isPerm` (soundness: `isPerm_iff_bijective`).
 `etreeDef` is the definition (elimination game on the graph of AᵀA), cubic, used as the reference.
@@ -260,5 +261,30 @@ def relaxLoop (n relax : Nat) (et desc : Array Nat) : Nat → Nat → Array Int 
 def relaxSnode (n relax : Nat) (et : Array Nat) : Array Nat × Array Int :=
   let desc := descendants n et
   (firstN n desc, relaxLoop n relax et desc (n + 1) 0 (Array.replicate n (-1)))
+
+/-! ### heap_relax_snode.c:36-135 (SymmetricMode: the tree is heap ordered, not postordered) -/
+
+def heapRelaxLoop (n relax : Nat) (et desc invp : Array Nat) : Nat → Nat → Array Int → Array Int
+  | 0, _, re => re
+  | fuel + 1, j, re =>
+    if j ≥ n then re else
+    let last := climb n relax et desc n j
+    let blk := (List.range (last + 1 - j)).map (· + j)           -- snode_start .. last
+    let k := blk.foldl (fun k i => if invp.getD i 0 < k then invp.getD i 0 else k) n
+    let l := invp.getD last 0
+    let re :=
+      if l - k = last - j then re.setIfInBounds k (Int.ofNat l)   -- also a supernode of the original tree
+      else blk.foldl (fun re i => if desc.getD i 0 == 0 then re.setIfInBounds (invp.getD i 0) (Int.ofNat (invp.getD i 0)) else re) re
+    let nxt := ((List.range n).find? fun k => k > last && desc.getD k 0 == 0).getD n
+    heapRelaxLoop n relax et desc invp fuel nxt re
+
+/-- `(descendants[] in postorder labels, relax_end[] in the caller's labels)` of heap_relax_snode -/
+def heapRelaxSnode (n relax : Nat) (et : Array Nat) : Array Nat × Array Int :=
+  let post := treePostorder n et
+  let pst : Nat → Nat := (post.getD · 0)
+  let invp := scatter (n + 1) pst id (Array.replicate (n + 1) 0)
+  let et' := firstN n (scatter n pst (fun i => pst (et.getD i 0)) (Array.replicate (n + 1) 0))
+  let desc := descendants n et'
+  (firstN n desc, heapRelaxLoop n relax et' desc invp (n + 1) 0 (Array.replicate n (-1)))
 
 end Slu.Order
